@@ -193,6 +193,9 @@ func init() {
 			}
 			h.mu.Unlock()
 		}
+		if err := multiSessionCheck(tier, seed, res); err != nil {
+			return err
+		}
 		return compareProjection(cases, res)
 	}
 }
